@@ -92,6 +92,7 @@ pub broadcast proof fn axiom_key_bytes_arr16(a: &[u8; 16]) ensures #[trigger] ke
 pub broadcast proof fn axiom_key_bytes_arr16v(a: [u8; 16]) ensures #[trigger] key_bytes::<[u8; 16]>(a) == a@ { admit(); }
 pub broadcast proof fn axiom_key_bytes_arr0(a: &[u8; 0]) ensures #[trigger] key_bytes::<&[u8; 0]>(a) == Seq::<u8>::empty() { admit(); }
 pub broadcast proof fn axiom_key_bytes_refvec(a: &Vec<u8>) ensures #[trigger] key_bytes::<&Vec<u8>>(a) == a@ { admit(); }
+pub broadcast proof fn axiom_key_bytes_slice(a: Slice) ensures #[trigger] key_bytes::<Slice>(a) == slice_bytes(&a) { admit(); }
 pub broadcast proof fn axiom_key_bytes_vec(a: Vec<u8>) ensures #[trigger] key_bytes::<Vec<u8>>(a) == a@ { admit(); }
 
 impl Keyspace {
@@ -167,8 +168,8 @@ pub mod serde_json {
 // Store::get decodes with deserialize_frame, which panics on undecodable bytes: its contract is
 // assumed (serde_json::from_slice inverts to_vec), not verified.
 #[verifier::external_body]
-pub fn deserialize_frame(record: (&[u8; 16], Slice)) -> (r: Frame)
-    ensures r == frame_dec(slice_bytes(&record.1))
+pub fn deserialize_frame<B1, B2>(record: (B1, B2)) -> (r: Frame)
+    ensures r == frame_dec(key_bytes::<B2>(record.1))
 { unimplemented!() }
 
 // ---- context registry (Arc<RwLock<HashSet<Scru128Id>>>) ----
